@@ -738,7 +738,7 @@ func computePred(fn *ssa.Function) {
 	}
 	if types.Identical(rt, types.Universe.Lookup("error").Type()) {
 		// facts common to all paths that return nil
-		e := &PPA{TraceBranches: true, Watch: func(ev *Ev) bool { return ev.Label == "if" }}
+		e := &PPA{NoAuto: true, TraceBranches: true, Watch: func(ev *Ev) bool { return ev.Label == "if" }}
 		e.Run(fn)
 		var common map[string]bool
 		for i := range e.Paths {
@@ -881,7 +881,7 @@ func (pa *PanicAudit) analyse(f *ssa.Function) (changed bool) {
 			}
 		}
 	}
-	e := &PPA{MaxVisits: 2, TraceBranches: true, MaxPaths: 60000,
+	e := &PPA{NoAuto: true, MaxVisits: 2, TraceBranches: true, MaxPaths: 60000,
 		Inline: func(fr *Frame, call ssa.CallInstruction, callee *ssa.Function) bool {
 			return callee.Parent() == fr.Fn && onlyInvokedInParent(callee)
 		},
